@@ -94,6 +94,9 @@ def gen_record(tier, mod):
            'env': {'json': json, 'kv': kv}, 'show': kv}
 
 
+JSON_CALLS = {'json.dumps': 'json.dumps!ext', 'json.loads': 'json.loads!ext'}
+JSON_SPEC = {'json.loads': 'json.loads!ext'}
+
 UNITS = [
   unit(F, 'ArgMin.finalize', props=['C20', 'C02', 'C07'], deductive=False, params=[],
        requires=[],
@@ -103,28 +106,68 @@ UNITS = [
   unit(F, 'ArgMax.finalize', props=['C20', 'C02', 'C07'], deductive=False, params=[],
        ensures=["json.loads(result) == [a for v, a in sorted(hist, reverse=True)][:K]"],
        native=gen_arg('ArgMax')),
-  unit(F, 'ArgMin.step', props=['C20'], deductive=False, params=['arg', 'value', 'limit'],
-       ensures=[], raises={'Exception': "limit is not None and limit <= 0"},
-       native=gen_arg_bad_limit('ArgMin')),
-  unit(F, 'ArgMax.step', props=['C20'], deductive=False, params=['arg', 'value', 'limit'],
-       ensures=[], raises={'Exception': "limit is not None and limit <= 0"},
-       native=gen_arg_bad_limit('ArgMax')),
+  # step: with one K throughout, the kept list never exceeds K entries (so the internal 'ArgMin error'
+  # branch is unreachable), grows by one while below K, and the only exceptions are the documented ones
+] + [
+  unit(F, '%s.step' % c, props=['C20', 'C02'], params=['arg', 'value', 'limit'],
+       types={'arg': 'val', 'value': 'val', 'limit': 'opt[int]'},
+       fields={'self.result': 'list[tuple[val,val]]'}, modifies=['self.result'], drop_calls=['print'],
+       calls={'heapq._heapify_max': 'heapq.permute!ext', 'heapq.heapify': 'heapq.permute!ext',
+              'heapq._heapreplace_max': 'heapq.replace!ext', 'heapq.heapreplace': 'heapq.replace!ext',
+              'repr': 'repr!ext'},
+       requires=["limit is None or limit <= 0 or len(self.result) <= limit"],
+       ensures=["limit is None or len(self.result) <= limit",
+                "implies(limit is None or len(old(self.result)) < limit, "
+                "len(self.result) == len(old(self.result)) + 1)",
+                "implies(limit is not None and len(old(self.result)) == limit, "
+                "len(self.result) == len(old(self.result)))",
+                # below K - 1 entries the pair is appended at the end, earlier entries untouched
+                "implies(limit is None or len(old(self.result)) < limit - 1, "
+                "self.result == old(self.result) + [(value, arg)])"],
+       raises={'Exception': "(limit is not None and limit <= 0) or (len(self.result) > 0 and "
+                            "DeFactoType(value) != DeFactoType(self.result[0][0]))"},
+       native=gen_arg_bad_limit(c))
+  for c in ('ArgMin', 'ArgMax')
+] + [
+  unit(F, 'DeFactoType', external=True, pure=True, params=['value'], types={'value': 'val'}, fields={},
+       returns='str'),
+  unit(F, 'repr!ext', external=True, pure=True, params=['value'], types={'value': 'val'}, fields={},
+       returns='str'),
+  # heapq (assumed): both operations keep the number of entries
+  unit(F, 'heapq.permute!ext', external=True, params=['h'], types={'h': 'list[tuple[val,val]]'}, fields={},
+       returns='none', modifies_args=['h'], ensures=["len(h) == len(old(h))"]),
+  unit(F, 'heapq.replace!ext', external=True, params=['h', 'item'],
+       types={'h': 'list[tuple[val,val]]', 'item': 'tuple[val,val]'}, fields={},
+       returns='tuple[val,val]', modifies_args=['h'], ensures=["len(h) == len(old(h))"]),
   unit(F, 'DistinctListAgg.finalize', props=['C20', 'C02', 'C07'], deductive=False, params=[],
        ensures=["sorted(json.loads(result), key=repr) == sorted(set(hist), key=repr)"],
        native=gen_distinct),
   unit(F, 'ArrayConcatAgg.finalize', props=['C20', 'C02'], deductive=False, params=[],
        ensures=["json.loads(result) == [e for x in hist if x is not None for e in json.loads(x)]"],
        native=gen_concat_agg),
-  unit(F, 'SortList', props=['C20'], deductive=False, params=['input_list_json'],
+  # json is outside the verifier's reach: loads / dumps are uninterpreted, and the one law the arguments
+  # need -- loads(dumps(x)) == x -- is the assumed postcondition of dumps at each call
+  unit(F, 'json.loads!ext', external=True, pure=True, params=['s'], types={'s': 'str'}, fields={},
+       returns='list[val]'),
+  unit(F, 'json.dumps!ext', external=True, pure=True, params=['x'], types={'x': 'list[val]'}, fields={},
+       returns='str', calls={'json.loads': 'json.loads!ext'}, ensures=["json.loads(result) == x"]),
+  unit(F, 'LoadJson', external=True, pure=True, params=['s'], types={'s': 'str'}, fields={},
+       returns='list[val]', calls={'json.loads': 'json.loads!ext'}, ensures=["result == json.loads(s)"]),
+  unit(F, 'SortList', props=['C20'], params=['input_list_json'], types={'input_list_json': 'str'},
+       returns='str', calls=JSON_CALLS, spec_calls=JSON_SPEC,
        ensures=["json.loads(result) == sorted(json.loads(input_list_json))"], native=gen_fn1),
-  unit(F, 'InList', props=['C20'], deductive=False, params=['item', 'a_list'],
+  unit(F, 'InList', props=['C20'], params=['item', 'a_list'], types={'item': 'val', 'a_list': 'str'},
+       returns='bool', calls=JSON_CALLS, spec_calls=JSON_SPEC,
        ensures=["result == (item in json.loads(a_list))"], native=gen_inlist),
-  unit(F, 'ArrayConcat', props=['C20'], deductive=False, params=['a', 'b'],
+  unit(F, 'ArrayConcat', props=['C20'], params=['a', 'b'], types={'a': 'opt[str]', 'b': 'opt[str]'},
+       returns='opt[str]', calls=JSON_CALLS, spec_calls=JSON_SPEC, drop_calls=['print'],
        ensures=["implies(a is None or b is None, result is None)",
+                "implies(a is not None and b is not None, result is not None)",
                 "implies(a is not None and b is not None, "
                 "json.loads(result) == json.loads(a) + json.loads(b))"], native=gen_fn2_lists),
-  unit(F, 'Join', props=['C20'], deductive=False, params=['array', 'separator'],
-       ensures=["result == separator.join(str(x) for x in json.loads(array))"], native=gen_join),
+  unit(F, 'Join', props=['C20'], params=['array', 'separator'], types={'array': 'str', 'separator': 'str'},
+       returns='str', calls=JSON_CALLS,
+       ensures=["result == separator.join([str(x) for x in json.loads(array)])"], native=gen_join),
   unit(F, 'AssembleRecord', props=['C20'], deductive=False, params=['field_value_list'],
        ensures=["json.loads(result) == dict(kv)"], native=gen_record),
 ]
